@@ -18,7 +18,7 @@ ID = "C19"
 MANIFEST = {
     "technique": "property-based testing (Hypothesis): grammar-generated AwkwardForth programs x input bytes x machine options, run on ForthMachine32/64 through the bridge, against an independent reference interpreter and model-free metamorphic relations; sanitizer twin; coverage-guided fuzzing (libFuzzer + ASan/UBSan) of bytes -> program + input with the metamorphic relations inside the target",
     "level_text": "Generated-input exploration. Programs (<= ~40 tokens, whole vocabulary of the language description, well-formed by construction plus a token-mutated fraction, plus the programs of the repository's own tests as a seed corpus) are compiled and executed on ForthMachine32/64 with generated input bytes and stack/recursion/output-buffer settings. Oracle 1: a pure-Python reference interpreter written from the language description must agree on the compile verdict and, at every pause point and at the end, on stack, variables, outputs, input positions, error status and ready/done flags (also across host-side call() of defined words). Oracle 2 (model-free): same result when run twice, through C++ run() vs begin+resume, when single-stepped to the end, under a generated interleaving of step/resume segments, under other output-buffer growth settings, after decompiled() is re-compiled (and decompiling is a fixed point), and between the 32- and 64-bit machine when no intermediate exceeds 32 bits. Oracle 3: every compile-time and run-time fault is an error value/exception, never a crash (ASan/UBSan twin; thorough tier: a libFuzzer campaign whose target checks step == run/resume, growth independence, determinism and decompile/recompile on every input). Held on everything generated outside the recorded known findings.",
-    "level_note": "Trusted: akmodel.forth (the language as I read it: the repository carries no AwkwardForth documentation, so the upstream language description, the error texts of ForthMachineOf::maybe_throw and tests/test_0648*/test_0781* served as the specification), the /verif bridge and its re-statement of the Python binding. Not asserted: behaviour the description is silent on (listed in ASSUMPTIONS; such programs still go through the model-free relations and the sanitizer twin); the pybind11 binding itself (src/python/forth.cpp cannot be compiled here); printed output of . cr .s .\"; literals beyond 32 bits; programs longer than ~40 tokens; output_initial_size 0 and resize factors <= 1 (maybe_resize cannot grow such a buffer); wraparound under the sanitizer build (signed overflow is undefined in C++: those programs are run in the plain flavour only); the LayoutBuilder users of the machine.",
+    "level_note": "Trusted: akmodel.forth (the language as I read it: the repository carries no AwkwardForth documentation, so the upstream language description, the error texts of ForthMachineOf::maybe_throw and tests/test_0648*/test_0781* served as the specification), the /verif bridge and its re-statement of the Python binding. Not asserted: behaviour the description is silent on (listed in ASSUMPTIONS; such programs still go through the model-free relations and the sanitizer twin); the pybind11 binding itself (src/python/forth.cpp cannot be compiled here); printed output of . cr .s .\"; literals beyond 32 bits; programs longer than ~40 (quick) / ~80 (thorough) tokens; output_initial_size 0 and resize factors <= 1 (maybe_resize cannot grow such a buffer); wraparound under the sanitizer build (signed overflow is undefined in C++: those programs are run in the plain flavour only); the LayoutBuilder users of the machine.",
 }
 RULE = ("case = generated program source + input bytes + machine width/stack/recursion/output-growth options + step/resume schedule + calls; "
         "non-trivial = the program compiled and the reference run executed at least one loop iteration or word call AND at least one read or write; "
@@ -101,11 +101,13 @@ def setup(flavour, tier):
         seed = int(os.environ.get("VERIF_SEED", "1"))
         if len(sys.argv) > 4 and sys.argv[4].isdigit():
             seed = int(sys.argv[4]) % (2 ** 31 - 1) + 1
-        SEED_CASES.append({"kind": "fuzz", "seed": seed, "runs": int(os.environ.get("VERIF_FUZZ_RUNS", FUZZ_RUNS.get(tier, 20000))), "max_len": 160})
+        SEED_CASES.append({"kind": "fuzz", "seed": seed, "runs": int(os.environ.get("VERIF_FUZZ_RUNS", FUZZ_RUNS.get(tier, 20000))), "max_len": 160,
+                           "max_time": 1500})      # the budget is the number of executions; the time bound is a safety net for a loaded machine
 
 
 def strategy(tier):
-    return GF.cases()
+    # main program of up to ~30 generated items (quick) / ~60 (thorough), definitions and declarations not counted
+    return GF.cases(max_total=30 if tier == "quick" else 60)
 
 
 def case_label(case):
@@ -314,6 +316,9 @@ def run_case(case):
     tags.append("outcome:" + final_m[1])
     tags += sorted(model.census - set(t for t in model.census if t.startswith("exec:read:")))
     tags += ["reader:" + t[10:] for t in model.census if t.startswith("exec:read:")]
+    ncalls = sum(1 for t in mtrace_c if t[0] == "call")
+    if ncalls:
+        tags.append("host-calls:%d" % min(ncalls, 2))
     npauses = sum(1 for t in mtrace0 if t[0] == "resume")
     if npauses:
         tags.append("pauses:%d" % min(npauses, 3))
@@ -509,7 +514,7 @@ def run_fuzz(case):
         with open(os.path.join(corpus, "seed%02d" % i), "wb") as f:
             f.write(s)
     cmd = [exe, "-runs=%d" % case["runs"], "-seed=%d" % case["seed"], "-max_len=%d" % case["max_len"], "-len_control=0", "-artifact_prefix=" + work + "/",
-           "-print_final_stats=1", "-timeout=20", "-rss_limit_mb=4096", "-close_fd_mask=1", corpus]
+           "-print_final_stats=1", "-timeout=20", "-rss_limit_mb=4096", "-close_fd_mask=1", "-max_total_time=%d" % case.get("max_time", 1500), corpus]
     try:
         err, rc = _run_with_heartbeat(cmd, _fuzz_env(), os.path.join(work, "stderr.txt"), limit=3000)
         stats = dict(re.findall(r"stat::(\w+):\s+(\d+)", err))
@@ -589,7 +594,20 @@ def known_ub_arithmetic(case, vio):
     return bool(m.ub)
 
 
+def known_string_index_after_decompile(case, vio):
+    """s" pushes the index of the string in the program's string table; decompiled() moves word definitions to the front, which
+    renumbers the strings of a program that has a string before a definition containing another one"""
+    if not vio.get("bucket", "").startswith("decompile:behaves-differently"):
+        return False
+    try:
+        prog = MF.compile_source(case["source"])
+    except (MF.CompileError, MF.Unspecified):
+        return False
+    return len(prog.strings) >= 2 and bool(prog.words) and 's"' in case["source"].split()
+
+
 KNOWN = {
+    "forth_string_index_after_decompile": known_string_index_after_decompile,
     "forth_ub_arithmetic": known_ub_arithmetic,
     "forth_structure_word_in_comment": known_structure_word_in_comment,
     "forth_pause_at_steploop_body_end": known_pause_at_steploop_body_end,
